@@ -128,6 +128,9 @@ SAMPLE_DIFF = b'--- a\n+++ b\n@@ -1 +1,2 @@\n-x\n+y\n+z\n'
 def build_tree(spec_):
     """spec_: dict(main=attrs, changes=[dict(attrs=.., files=[attrs..])])
     built only through public constructors."""
+    if 'parse' in spec_:
+        # a tree reached by loading a file (a non-initial state)
+        return DiffX.from_bytes(spec_['parse'])
     d = DiffX(**copy.deepcopy(spec_.get('main', {})))
     for c in spec_.get('changes', []):
         ch = d.add_change(**copy.deepcopy(c.get('attrs', {})))
